@@ -6,6 +6,6 @@ CONSTANTS
   Space = "one"
   Canonical = FALSE
   Deviations = {}
-INVARIANTS  TypeOK PhaseBarrier DepOrder SetOrder CycleReported NoFinalizeAfterError AllPhasesForAll CompleteBeforeError ErrorsTogether OkMeansNoErrors LateRootsRun
+INVARIANTS  TypeOK RunReturns PhaseBarrier DepOrder SetOrder CycleReported NoFinalizeAfterError AllPhasesForAll CompleteBeforeError ErrorsTogether OkMeansNoErrors LateRootsRun
 
 CHECK_DEADLOCK FALSE
